@@ -387,6 +387,9 @@ func (g *batchGen) batch() *BatchSpec {
 		if len(b.Ops) == 0 && len(b.Kids) == 0 && len(b.DelKids) == 0 {
 			b.Ops = g.ops("v", 3)
 		}
+		if AvoidTriggers["structuralOnlyBatch"] && countOps(b) == 0 {
+			b.Ops = g.ops("v", 2)
+		}
 	}
 	return b
 }
